@@ -221,6 +221,32 @@ Theorem C15_confirm_monotone :
    exists i t s, nth_error h i = Some (t, Some s) /\ (sent < s)%N /\ (t < wait)%Z).
 Proof. exact confirm_monotone. Qed.
 
+(** Clock in ticks (as the loop really runs: a sleep of wait/10 between polls):
+    the result is decided by the polls made before the deadline, at most n of
+    them when n*step >= wait — ten for a deadline that is a multiple of ten units;
+    later answers are never looked at. *)
+Theorem C15_confirm_poll_bound :
+  forall wait sent (h : list poll) step n,
+  ticks step h -> (wait <= Z.of_nat n * step)%Z ->
+  confirm wait sent h = confirm wait sent (firstn n h).
+Proof. exact confirm_poll_bound. Qed.
+
+Theorem C15_confirm_ten_polls :
+  forall wait sent (h : list poll),
+  ticks (wait / 10) h -> (wait mod 10 = 0)%Z ->
+  confirm wait sent h = confirm wait sent (firstn 10 h).
+Proof. exact confirm_ten_polls. Qed.
+
+(** mnemonic: the library accepts a phrase iff strings.Split gives at least 12
+    parts and the version byte (PBKDF2, an oracle) is 0; the wallet is then the
+    v4r2 wallet of the derived key with default options *)
+Theorem C15_seed_accepted_spec :
+  forall (code : version -> cell) (chash : cell -> res bytes) s vbyte pk,
+  api_from_seed code chash s vbyte pk =
+    if (12 <=? S (length (filter (N.eqb 32) s)))%nat && N.eqb vbyte 0
+    then api_new code chash pk V4R2 (mkopt None None None) else Err EWallet.
+Proof. reflexivity. Qed.
+
 (** RawSendV2 after the message is built: the message goes to SendMessage; an
     error there is returned; without confirmation the hash is returned; with
     confirmation the result is Ok iff the loop confirms, else the timeout error
@@ -252,7 +278,7 @@ Theorem C15_send_v2_spec :
     raw_send_msg SK chash sign w sk wc (bytes_to_bits h) seqno valid ms init rnd = Ok (hh, e) /\
     create_body SK chash sign w sk ms seqno valid op_signed_external rnd = Ok body /\
     (init_ok chash init ->
-     parse_ext chash e = Ok (mkext (Z.to_N (w_wc w mod 256)) (bytes_to_bits h) init body)) /\
+     parse_ext chash e = Ok (mkext (ext_in_std (w_wc w) (bytes_to_bits h)) init body)) /\
     r = (if send_err then Err EChain
          else if (wait =? 0)%Z then Ok hh
          else match w_ver w with
